@@ -216,9 +216,10 @@ void Stats::processMsg(int sockfd) {
     OLOG << "Stats server error: writing to socket: "
          << ::strerror_r(errno, err_buf.data(), err_buf.size());
   }
-  std::unique_lock<std::mutex> lock(thread_mutex_);
+  // Notify while holding the lock: once the count is published as zero and
+  // the lock is released, ~Stats may destroy thread_exited_.
+  std::lock_guard<std::mutex> lock(thread_mutex_);
   thread_count_--;
-  lock.unlock();
   thread_exited_.notify_one();
 }
 
